@@ -135,6 +135,24 @@ pub fn selftest() -> i32 {
         }
         total += 2 * n + (n / 10).max(3);
     }
+    // 5. the first execution in a fresh process must equal later ones (process-wide lazily initialised
+    //    tables must not be created inside a simulated thread: replay files are executed first in their process)
+    for (prop, name) in [("C06", "history"), ("C07", "cache-history"), ("C09", "race"), ("C10", "scanedit"), ("C19", "diagnostics"), ("C12", "locks"), ("C13", "discover-faults"), ("C01", "resolve-venv")] {
+        for seed in [2069305113998522011u64, 77] {
+            let o = std::process::Command::new(std::env::current_exe().unwrap()).args(["debug-determinism", prop, name, &seed.to_string(), "3"]).output();
+            match o {
+                Ok(o) => {
+                    let so = String::from_utf8_lossy(&o.stdout).to_string();
+                    let entries = so.matches("): ").count();
+                    if entries != 1 {
+                        failures.push(format!("{} {} seed {}: executions in a fresh process are not all equal: {}", prop, name, seed, so.trim()));
+                    }
+                    total += 3;
+                }
+                Err(e) => failures.push(format!("cannot start child: {}", e)),
+            }
+        }
+    }
     println!("plsim selftest: {} executions over {} scenarios in {:.1}s, overlay substitutions {}, {} failure(s)", total, scen.len(), t0.elapsed().as_secs_f64(), super::OVERLAY_SUBSTITUTIONS, failures.len());
     for f in failures.iter().take(10) {
         eprintln!("SELFTEST-FAILURE: {}", f);
